@@ -6,7 +6,7 @@ from .common import Ctx, Obligation, tail
 GROUPING = "C01-grouping-lost-in-infix-emission"
 
 
-def python_says(pyfile):
+def python_says(pyfile, whole_i64=False):
     """Run the Python rendering of the program: ('done'|'ZeroDivisionError'|'IndexError', printed lines)."""
     try:
         p = subprocess.run(["python3", "-X", "int_max_str_digits=0", pyfile], stdout=subprocess.PIPE, stderr=subprocess.PIPE, text=True, timeout=20)
@@ -17,7 +17,7 @@ def python_says(pyfile):
     for ln in lines:
         for tok in ln.split(" "):
             t = tok.lstrip("-")
-            if t.isdigit() and len(t) >= 18:
+            if t.isdigit() and len(t) >= 18 and not (whole_i64 and -2**63 <= int(tok) < 2**63):
                 return "overflow"
     if p.returncode == 0:
         stop = "done"
@@ -49,6 +49,8 @@ def run(args):
         ctx.evaluations = len(cases)
         feat_cases = [c for c in cases if c[0].startswith("c01 feat ")]
         cases = [c for c in cases if not c[0].startswith("c01 feat ")]
+        comp_cases = [c for c in cases if c[0].startswith("c01 comp ")]
+        cases = [c for c in cases if not c[0].startswith("c01 comp ")]
         disp_cases = [c for c in cases if c[0].startswith("c01 dispatch ")]
         cases = [c for c in cases if not c[0].startswith("c01 dispatch ")]
         pys = [python_says(c[0].split(" ")[-1]) for c in cases]
@@ -90,7 +92,8 @@ def run(args):
         for req, real in feat_cases:
             name, pyfile = req.split(" ")[2], req.split(" ")[-1]
             ctx.nontrivial.add(req)
-            exp = python_says(pyfile)
+            # the boundary template prints values up to the ends of the 64-bit range on purpose
+            exp = python_says(pyfile, whole_i64=(name == "int-boundary-arithmetic"))
             if exp is None or exp == "overflow":
                 failures.append({"request": req, "real": real, "why": "the Python rendering of the feature program did not run: oracle unavailable"})
             elif real != exp:
@@ -99,6 +102,10 @@ def run(args):
             else:
                 hist["feature_programs_agree"] += 1
         # third stream: method dispatch along `extends` chains — model tie + the documented rule (most derived wins)
+        ctx.tie("model comprehension (filter on the loop variable, then the element expression) = list printed by compiled comprehensions over lists and ranges",
+                comp_cases, ctx.run_driver([c[0] for c in comp_cases]))
+        for req, _ in comp_cases:
+            ctx.nontrivial.add(req)
         ctx.tie("model dispatch (inheritedMethods: retain + push per class, ancestors first) = which body a method call runs in compiled class chains", disp_cases, ctx.run_driver([c[0] for c in disp_cases]))
         hist["class_chains_agree"] = 0
         for req, real in disp_cases:
